@@ -500,7 +500,7 @@ impl Check for ConnCheck {
             }
             _ => {
                 let n = rng.range(1, 6);
-                let ops: Vec<Value> = (0..n).map(|_| json!({"kind": rng.below(28), "a": rng.next(), "b": rng.next()})).collect();
+                let ops: Vec<Value> = (0..n).map(|_| json!({"kind": rng.below(32), "a": rng.next(), "b": rng.next()})).collect();
                 json!({"engine": "conn", "mode": "hostile", "seed": seed, "meta_first": rng.chance(2, 3), "active_redirection": rng.chance(1, 3), "frag": *rng.pick(&[1u64, 3, 64, 65536]), "ops": ops})
             }
         }
@@ -1063,7 +1063,10 @@ fn hostile_bytes(kind: u64, a: u64, b: u64) -> (String, Vec<u8>) {
         8 => ("umforward-huge-times".into(), cmd_bytes(&[b"UMFORWARD", big.to_string().as_bytes(), b"GET", b"k"])),
         9 => ("umforward-junk".into(), cmd_bytes(&[b"UMFORWARD", &junk, b"GET"])),
         10 => ("umctl-setcluster-junk".into(), cmd_bytes(&[b"UMCTL", b"SETCLUSTER", b"v2", &junk, b"NOFLAG", b"c0", b"10.0.0.1:6000", big.to_string().as_bytes(), b"0-16383"])),
-        11 => ("umctl-setcluster-huge-range".into(), cmd_bytes(&[b"UMCTL", b"SETCLUSTER", b"v2", b"9", b"NOFLAG", b"c0", b"10.0.0.1:6000", b"1", format!("0-{}", big).as_bytes()])),
+        11 => match b % 3 {
+            0 => ("umctl-setcluster-huge-range".into(), cmd_bytes(&[b"UMCTL", b"SETCLUSTER", b"v2", b"9", b"NOFLAG", b"c0", b"10.0.0.1:6000", b"1", format!("0-{}", big).as_bytes()])),
+            t => ("umctl-setcluster-huge-range-with-migration-tag".into(), cmd_bytes(&[b"UMCTL", b"SETCLUSTER", b"v2", b"1000009", b"FORCE", b"c0", b"10.0.0.1:6000", if t == 1 { b"MIGRATING".as_ref() } else { b"IMPORTING".as_ref() }, b"1", format!("0-{}", big).as_bytes(), b"7", b"10.0.0.1:7000", b"10.0.0.1:6000", b"10.0.9.1:7000", b"10.0.9.1:6000"])),
+        },
         12 => ("umctl-setrepl-junk".into(), cmd_bytes(&[b"UMCTL", b"SETREPL", b"5", b"NOFLAG", b"master", b"c0", b"10.0.0.1:6000", big.to_string().as_bytes()])),
         13 => ("umctl-precheck-junk".into(), cmd_bytes(&[b"UMCTL", b"PRECHECK", &junk, b"c0", b"MIGRATING", b"1", b"0-100"])),
         14 => ("config-set-junk".into(), cmd_bytes(&[b"CONFIG", b"SET", &junk, big.to_string().as_bytes()])),
@@ -1079,7 +1082,62 @@ fn hostile_bytes(kind: u64, a: u64, b: u64) -> (String, Vec<u8>) {
         24 => ("inline-text".into(), s("PING\r\nGET k\r\n")),
         25 => ("umsync-junk".into(), cmd_bytes(&[b"UMSYNC", &junk, b"k"])),
         26 => ("array-of-non-bulk".into(), s("*2\r\n:1\r\n+x\r\n")),
-        _ => ("huge-negative-lengths".into(), s("*-9223372036854775808\r\n$-9223372036854775808\r\n")),
+        27 => ("huge-negative-lengths".into(), s("*-9223372036854775808\r\n$-9223372036854775808\r\n")),
+        28 | 29 => {
+            // well-formed RESP arrays whose arguments are not bulk strings (no client library sends
+            // them, nothing forbids them on the wire)
+            let names: [&[u8]; 26] = [b"GET", b"SET", b"DEL", b"EXISTS", b"MGET", b"MSET", b"MSETNX", b"BLPOP", b"BRPOP", b"BZPOPMIN", b"BZPOPMAX", b"BRPOPLPUSH", b"EVAL", b"UMCTL", b"CLUSTER", b"CONFIG", b"AUTH", b"UMFORWARD", b"UMSYNC", b"SETEX", b"PSETEX", b"GETSET", b"APPEND", b"INFO", b"SETNX", b"EVALSHA"];
+            let name = if kind == 29 { names[7 + (a % 4) as usize] } else { names[(a % 26) as usize] };
+            let odd: [&[u8]; 6] = [b"$-1\r\n", b":1\r\n", b"+x\r\n", b"*1\r\n$1\r\nk\r\n", b"-e\r\n", b"*0\r\n"];
+            let n_args = if kind == 29 { 2 } else { 1 + (b % 3) as usize };
+            let mut v = format!("*{}\r\n${}\r\n", 1 + n_args, name.len()).into_bytes();
+            v.extend_from_slice(name);
+            v.extend_from_slice(b"\r\n");
+            for i in 0..n_args {
+                let h = hash3(a, b, i as u64);
+                let last_is_timeout = kind == 29 && i == n_args - 1;
+                if last_is_timeout || h % 4 == 3 {
+                    v.extend_from_slice(if last_is_timeout || h % 8 == 3 { b"$1\r\n1\r\n" } else { b"$1\r\nk\r\n" });
+                } else {
+                    v.extend_from_slice(odd[(h >> 8) as usize % odd.len()]);
+                }
+            }
+            (if kind == 29 { "blocking-pop-non-bulk-key".to_string() } else { "non-bulk-arguments".to_string() }, v)
+        }
+        31 => {
+            // every request is recorded in the slow log (both knobs are runtime-settable by any
+            // client), then arguments whose rendering has to be shortened
+            let pad = 96 + (a % 6) as usize;
+            let wide = ["\u{4e2d}", "\u{e9}", "\u{1f600}"][(b % 3) as usize];
+            let mut key = vec![b'a'; pad];
+            key.extend(wide.repeat(3).as_bytes());
+            let mut v = cmd_bytes(&[b"CONFIG", b"SET", b"slowlog_sample_rate", b"1"]);
+            v.extend(cmd_bytes(&[b"CONFIG", b"SET", b"slowlog_log_slower_than", b"-1"]));
+            v.extend(cmd_bytes(&[b"GET", &key]));
+            v.extend(cmd_bytes(&[b"SET", b"k", &key]));
+            v.extend(cmd_bytes(&[b"UMCTL", b"SLOWLOG", b"GET"]));
+            ("slowlog-of-long-multibyte-arguments".into(), v)
+        }
+        _ => {
+            // valid control messages with unusual cluster names, followed by the commands that render them
+            let names: [Vec<u8>; 8] = [
+                vec![b'a'; 31],
+                vec![b'b'; 25],
+                { let mut n = b"a".to_vec(); n.extend("\u{4e2d}".repeat(8).as_bytes()); n },      // 25 bytes, char across byte 24
+                { let mut n = b"ab".to_vec(); n.extend("\u{e9}".repeat(12).as_bytes()); n },       // 26 bytes of 2-byte chars
+                "\u{1f600}".repeat(6).into_bytes(),                                               // 24 bytes of 4-byte chars
+                { let mut n = vec![b'c'; 23]; n.extend("\u{4e2d}".as_bytes()); n },               // char starts at byte 23
+                b"c-0_@ x".to_vec(),
+                vec![],
+            ];
+            let name = &names[(a % 8) as usize];
+            let epoch = (1_000_000 + b % 1000).to_string();
+            let mut v = cmd_bytes(&[b"UMCTL", b"SETCLUSTER", b"v2", epoch.as_bytes(), b"FORCE", name, b"10.0.0.1:6000", b"1", b"0-16383"]);
+            v.extend(cmd_bytes(&[b"CLUSTER", b"NODES"]));
+            v.extend(cmd_bytes(&[b"CLUSTER", b"SLOTS"]));
+            v.extend(cmd_bytes(&[b"UMCTL", b"INFO"]));
+            ("setcluster-unusual-name-then-cluster-nodes".into(), v)
+        }
     }
 }
 
@@ -1123,16 +1181,60 @@ async fn run_hostile(plan: &Value, want_sample: bool) -> RunRecord {
             t.abort();
             continue;
         }
-        // a complete request must be answered, or its connection closed, within the (virtual) bound
-        match tokio::time::timeout(Duration::from_secs(10), c.read(&mut tmp)).await {
-            Ok(Ok(0)) | Ok(Err(_)) => a_closed = true,
-            Ok(Ok(_)) => {}
-            Err(_) => {
-                let complete = matches!(ref_parse(&bytes, 0), Ok(Some((R::Arr(Some(ref v)), used))) if used == bytes.len() && !v.is_empty());
-                if complete {
-                    rec.violate(Violation::with_sig("C16", "request-never-answered", format!("request-never-answered:{}", name), format!("hostile input `{}` ({} bytes: {:?}) is a complete request but was neither answered nor was its connection closed within 10 virtual seconds", name, bytes.len(), String::from_utf8_lossy(&bytes[..bytes.len().min(80)]))));
+        // every complete request must be answered, or the connection closed, within the (virtual) bound
+        let mut n_requests = 0usize;
+        let mut all_complete = true;
+        {
+            let mut off = 0usize;
+            while off < bytes.len() {
+                match ref_parse(&bytes[off..], 0) {
+                    Ok(Some((R::Arr(Some(ref v)), used))) if !v.is_empty() => {
+                        n_requests += 1;
+                        off += used;
+                    }
+                    _ => {
+                        all_complete = false;
+                        break;
+                    }
                 }
             }
+        }
+        let want_replies = if all_complete { n_requests.max(1) } else { 1 };
+        let mut got: Vec<u8> = vec![];
+        let mut n_replies = 0usize;
+        let deadline = tokio::time::Instant::now() + Duration::from_secs(10);
+        let mut timed_out = false;
+        while n_replies < want_replies {
+            match tokio::time::timeout_at(deadline, c.read(&mut tmp)).await {
+                Ok(Ok(0)) | Ok(Err(_)) => {
+                    a_closed = true;
+                    break;
+                }
+                Ok(Ok(n)) => {
+                    got.extend_from_slice(&tmp[..n]);
+                    loop {
+                        match ref_parse(&got, 0) {
+                            Ok(Some((_, used))) => {
+                                got.drain(..used);
+                                n_replies += 1;
+                            }
+                            Ok(None) => break,
+                            Err(_) => {
+                                // not RESP: C08/C15's business, stop counting here
+                                n_replies = want_replies;
+                                break;
+                            }
+                        }
+                    }
+                }
+                Err(_) => {
+                    timed_out = true;
+                    break;
+                }
+            }
+        }
+        if timed_out && all_complete && n_requests > 0 {
+            rec.violate(Violation::with_sig("C16", "request-never-answered", format!("request-never-answered:{}", name), format!("hostile input `{}` ({} bytes: {:?}) consists of {} complete request(s) but only {} were answered and the connection was not closed within 10 virtual seconds", name, bytes.len(), String::from_utf8_lossy(&bytes[..bytes.len().min(80)]), n_requests, n_replies)));
         }
         t.abort();
         if let Err(e) = t.await {
